@@ -103,7 +103,8 @@ pub fn seq_cfg(focus: &'static str, seed: u64, index: u64, clean_only: bool) -> 
     let saturate = focus == "C03" && index % 3 == 0;
     let noise_threads = if pressure || saturate { 0 } else { noise_threads };
     let hit_only = focus == "C16" && rng.chance(1, 3);
-    let known = !clean_only && rng.chance(1, 4);
+    // (C13's sequential histories exist to end with a dead worker and a shutdown: they always draw the recorded triggers)
+    let known = !clean_only && (focus == "C13" || rng.chance(1, 4));
     let mut allow = Allow::default();
     if known {
         match focus {
@@ -112,6 +113,8 @@ pub fn seq_cfg(focus: &'static str, seed: u64, index: u64, clean_only: bool) -> 
             "C09" => allow.upsert_on_expired = true,
             "C01" => { allow.overweight_update = true; allow.remove_ttl_small_weight = rng.chance(1, 3); }
             "C17" => { allow = Allow::all(); }
+            // C13: a time-to-live that overflows kills the command worker (recorded under C17); the history then ends with shutdown()
+            "C13" => { allow.ttl_overflow = true; }
             // a put over an expired, unswept entry: refused today (a recorded C07 finding, which ends the history); if it were admitted the
             // counters and the accounting would have to stay exact
             "C16" | "C05" => allow.put_on_expired = true,
@@ -140,7 +143,7 @@ pub fn seq_cfg(focus: &'static str, seed: u64, index: u64, clean_only: bool) -> 
         focus, seed, index,
         steps: rng.range(25, 60) as usize,
         n_keys, pressure, noise_threads, allow, sut,
-        boundary_args: focus == "C17",
+        boundary_args: focus == "C17" || focus == "C13",
         hit_only,
         cap,
         lenient_weights,
